@@ -34,7 +34,7 @@ func init() {
 		ID: "C01", Quick: 8000, Thorough: 400000, Level: "exploration",
 		Rule: "single-client histories of insert/put/merge/delete/reuse over a swarm-drawn schema (all column kinds, merge variants, late columns), capacity and block layout (prefilled sparse/nearly-full blocks); after every step the full state read through Row/Txn/Any readers is compared with the model; " + ruleSeq,
 		Gen: func(seed uint64, run int, tier string) *Case {
-			p := seqProfile{minSteps: 4, maxSteps: 30, wTxn: 20, wCreateCol: 2,
+			p := seqProfile{minSteps: 4, maxSteps: 30, wTxn: 20, wCreateCol: 2, wDropCol: 1,
 				wInsert: 8, wAt: 8, wRange: 3, wDelete: 3, wDeleteAll: 1,
 				pAbort: 0.05, pMerge: 0.35, maxCols: 12, multiBlock: 0.5}
 			return genSeq("C01", seed, run, p, knownAvoid("C01", seed, run))
@@ -376,13 +376,13 @@ func init() {
 		ID: "C11", Quick: 10000, Thorough: 500000, Level: "exploration",
 		Rule: "part A (even runs): single-client insert/delete churn producing full, sparse and fragmented fill patterns across 64-bit word and 16K block boundaries under every capacity option, with failing insert callbacks and rollbacks; every offset handed to an insert is checked at the moment it is reserved against the model's live and reserved sets and against a churn bound, every row being inserted must expose nothing, Count and the full dump are compared after every step; part B (odd runs): 2-4 concurrently inserting and deleting threads under the controlled scheduler (hook after an insert reserved its offset), same reservation oracle, Count and dump at quiescence; " + ruleSeq,
 		Gen: func(seed uint64, run int, tier string) *Case {
-			p := seqProfile{minSteps: 6, maxSteps: 40, wTxn: 20,
+			p := seqProfile{minSteps: 6, maxSteps: 40, wTxn: 20, wCreateIndex: 1,
 				wInsert: 14, wAt: 3, wRange: 1, wDelete: 8, wDeleteAll: 2,
-				pAbort: 0.15, pFailInsert: 0.15, pMerge: 0.3, maxCols: 5, multiBlock: 0.6}
+				pAbort: 0.15, pFailInsert: 0.15, pMerge: 0.3, maxCols: 5, multiBlock: 0.6, indexes: true}
 			if run%2 == 1 {
 				return genConc("C11", seed, run, concProfile{minWriters: 2, maxWriters: 4, minReaders: 0, maxReaders: 1, maxTxns: 4, maxOps: 4,
 					wUpdate: 2, wMerge: 1, wInsert: 12, wDeleteOwn: 8, wRangeRead: 1, wPointRead: 1,
-					pAbort: 0.15, pFailInsert: 0.15, multiBlock: 0.5, maxCols: 4, stableRows: [2]int{1, 4}}, knownAvoid("C11", seed, run))
+					pAbort: 0.15, pFailInsert: 0.15, multiBlock: 0.5, maxCols: 4, stableRows: [2]int{1, 4}, indexes: true}, knownAvoid("C11", seed, run))
 			}
 			return genSeq("C11", seed, run, p, knownAvoid("C11", seed, run))
 		},
